@@ -35,7 +35,6 @@ use core::iter::once;
 
 use anyhow::{ensure, Result};
 use hashbrown::HashMap;
-use itertools::Itertools;
 use plonky2::field::extension::{Extendable, FieldExtension};
 use plonky2::field::packed::PackedField;
 use plonky2::field::polynomial::PolynomialValues;
@@ -346,12 +345,21 @@ fn ctl_helper_zs_cols<F: Field, const N: usize>(
     challenge: GrandProductChallenge<F>,
     constraint_degree: usize,
 ) -> Vec<(usize, Vec<PolynomialValues<F>>)> {
-    let grouped_lookups = looking_tables.iter().group_by(|a| a.table);
+    // Group all the appearances of a table together, adjacent or not, in order of first appearance: this is
+    // how `cross_table_lookup_data`, `num_ctl_helpers_zs_all` and the verifiers count them.
+    let mut tables: Vec<usize> = vec![];
+    for looking_table in &looking_tables {
+        if !tables.contains(&looking_table.table) {
+            tables.push(looking_table.table);
+        }
+    }
 
-    grouped_lookups
+    tables
         .into_iter()
-        .map(|(table, group)| {
-            let columns_filters = group
+        .map(|table| {
+            let columns_filters = looking_tables
+                .iter()
+                .filter(|looking_table| looking_table.table == table)
                 .map(|table| (&table.columns[..], &table.filter))
                 .collect::<Vec<(&[Column<F>], &Filter<F>)>>();
             (
